@@ -287,7 +287,7 @@ func (e *Engine) havocLoopMemory(f *frame, lc *loopCtx) {
 // except objects not yet allocated stay irrelevant. (Objects allocated before the loop may change.)
 func (e *Engine) havocOld(st *State, key string) *smt.Term {
 	leaf := e.heapSorts[key]
-	return e.X.Fresh("HV|"+key, heapSort(key, leaf))
+	return e.X.Fresh("HV|"+key, e.heapSortOf(key, leaf))
 }
 
 func (e *Engine) keysOfStore(addr ssa.Value, t types.Type) []string {
